@@ -877,6 +877,7 @@ func c12TaxDate(c *core.Ctx) {
 					if call, ok := rhs.(*ast.CallExpr); ok {
 						if fn := core.Callee(info, call); fn != nil && strings.Contains(strings.ToLower(fn.Name()), "valuedate") {
 							okValue = true
+							c12DateGetters(c, fn, "ValueDate")
 						}
 						continue
 					}
@@ -884,6 +885,7 @@ func c12TaxDate(c *core.Ctx) {
 						src := ld.Resolve(u.X, 2)
 						if call, ok := ast.Unparen(src).(*ast.CallExpr); ok {
 							if fn := core.Callee(info, call); fn != nil && strings.Contains(strings.ToLower(fn.Name()), "issuedate") {
+								c12DateGetters(c, fn, "IssueDate")
 								// must be under `v == nil`
 								for _, cond := range enclosingConds(fd.Decl.Body, d.Stmt) {
 									g := core.GuardOf(info, cond, nil)
@@ -904,6 +906,49 @@ func c12TaxDate(c *core.Ctx) {
 	if n == 0 {
 		c.Ob("C12-R5", "UNRESOLVED:tax-date", token.NoPos, false, "no tax.TotalCalculator literal with a Date in package bill")
 	}
+}
+
+// c12DateGetters checks the implementations of the document interface's date
+// getter: each must hand out the document's own field of that name on every
+// return (a getter that substitutes another date changes which rate applies).
+func c12DateGetters(c *core.Ctx, fn *types.Func, field string) {
+	p := c.P
+	var impls []*core.FuncDecl
+	if fd := p.DeclOf(fn); fd != nil {
+		impls = append(impls, fd)
+	} else {
+		for _, fd := range p.Funcs(p.Pkg("bill")) {
+			if fd.Obj.Name() == fn.Name() && fd.Decl.Recv != nil && types.Identical(
+				stripRecv(fd.Obj.Type().(*types.Signature)), stripRecv(fn.Type().(*types.Signature))) {
+				impls = append(impls, fd)
+			}
+		}
+	}
+	if len(impls) == 0 {
+		c.Ob("C12-R5", "UNRESOLVED:"+fn.Name(), token.NoPos, false, "no implementation of the date getter found in package bill")
+	}
+	for _, fd := range impls {
+		info := fd.Pkg.TypesInfo
+		recv := recvVar(fd)
+		ld := core.NewLocalDefs(info, fd.Decl.Body)
+		ok, nret := true, 0
+		ast.Inspect(fd.Decl.Body, func(n ast.Node) bool {
+			if r, isR := n.(*ast.ReturnStmt); isR && len(r.Results) == 1 {
+				nret++
+				e := ld.Resolve(r.Results[0], 3)
+				if !core.IsFieldOfVar(info, e, recv, field) {
+					ok = false
+				}
+			}
+			return true
+		})
+		c.Ob("C12-R5", fd.Name()+"#returns-"+field, fd.Decl.Pos(), ok && nret > 0,
+			fmt.Sprintf("the getter does not return the document's %s on every path", field))
+	}
+}
+
+func stripRecv(sig *types.Signature) *types.Signature {
+	return types.NewSignatureType(nil, nil, nil, sig.Params(), sig.Results(), sig.Variadic())
 }
 
 // c12CodeVsData compares the folded code tables with data/regimes/*.json.
